@@ -192,6 +192,7 @@ class FootnoteMap(AbstractValue):
     def abs_contains(self, interp, item):
         r = interp.decide(('footnote-key-present', id(item)), fresh=True)
         self.known[id(item)] = r
+        self.tested = getattr(self, 'tested', []) + [item]
         return r
 
     def abs_getattr(self, interp, name):
@@ -338,6 +339,12 @@ def rule_first_wins(ctx, rep):
                         key_samples.append(key)
             if order != sorted(order):
                 problems['store-order'] = 'definitions are not stored in source order'
+            # every definition is dealt with, whatever became of the ones before it: its key is stored, or was looked up
+            looked_at = [k_ for k_ in getattr(fm, 'tested', [])] + [e[1] for e in fm.log]
+            for i in (0, 1):
+                if kind == 'ok' and not any(derives_from(k_, labels[i]) for k_ in looked_at):
+                    problems['definition-skipped'] = ('can finish without having stored or even looked up definition %d of 2 (after a '
+                                                      'label that was already defined): that definition is lost' % (i + 1))
             if len(order) != len(stores):
                 problems['key-not-from-label'] = 'a stored key does not derive from the definition\'s label'
             for f in applied:
